@@ -485,13 +485,16 @@ class DictList(list):
         if isinstance(i, slice):
             # In this case, y needs to be a list. We will ensure all
             # the id's are unique
-            for obj in y:  # need to be setting to a list
-                self._check(obj.id)
-                # Insert a temporary placeholder so we catch the presence
-                # of a duplicate in the items being added
-                self._dict[obj.id] = None
-            list.__setitem__(self, i, y)
-            self._generate_index()
+            try:
+                for obj in y:  # need to be setting to a list
+                    self._check(obj.id)
+                    # Insert a temporary placeholder so we catch the presence
+                    # of a duplicate in the items being added
+                    self._dict[obj.id] = None
+                list.__setitem__(self, i, y)
+            finally:
+                # also drops the placeholders again if an error was raised
+                self._generate_index()
             return
         # raises IndexError for a bad index before anything is changed
         old_id = self[i].id
